@@ -88,7 +88,12 @@ class Lab:
                             groups=[], guards=[])
         self.attrs = self.cfg["attrs"]
         if sorted(self.attrs) != sorted(LAZY_ATTRS):
-            raise InfraError("registered lazy attributes changed: %r" % (self.attrs,))
+            if set(self.attrs) - set(LAZY_ATTRS):
+                raise InfraError("registered lazy attributes changed: %r" % (self.attrs,))
+            # a name the event language knows is no longer registered: the generated model cannot express
+            # the histories; they are still run and judged by the oracle against the canonical values
+            self.degrade("lazy attributes no longer registered: %r" % sorted(set(LAZY_ATTRS) - set(self.attrs)))
+            self.attrs = self.cfg["attrs"]
         self.pool = Pool(nworkers)
         self.node_ids = {}
         self.tok2dig, self.dig2tok = {}, {}
